@@ -98,10 +98,15 @@ func sliceProbes[T comparable](dy *Dyn, name string, get func() []T, junk T) {
 	})
 	dy.Snapshots = append(dy.Snapshots, func() func() string {
 		s := get()
+		// the caller owns what it got, spare capacity included: it appends to the
+		// slice (also to an empty one) and expects to find its own values there later
+		for len(s) < cap(s) {
+			s = append(s, junk)
+		}
 		cp := append([]T(nil), s...)
 		return func() string {
 			if !eqSlices(s, cp) {
-				return fmt.Sprintf("%s returned earlier was %s and is now %s", name, short(cp), short(s))
+				return fmt.Sprintf("%s returned earlier (and appended to within its capacity by the caller) was %s and is now %s", name, short(cp), short(s))
 			}
 			return ""
 		}
